@@ -5,6 +5,7 @@ package main
 import (
 	"encoding/json"
 	"fmt"
+	"go/types"
 	"io"
 	"os"
 	"sort"
@@ -29,6 +30,13 @@ type Config struct {
 	Params     map[string]int64
 	Concrete   map[string]replayInput // selftest: inputs come from here
 	Known      map[string]bool
+}
+
+// Dec is one recorded decision; K carries the candidate value of a concretisation so
+// that re-execution of a prefix asks the same question again.
+type Dec struct {
+	V bool
+	K uint64
 }
 
 type inputInfo struct {
@@ -67,7 +75,7 @@ type Explorer struct {
 	initPkgs []*ssa.Package
 
 	mu        sync.Mutex
-	queue     [][]bool
+	queue     [][]Dec
 	idle      int
 	done      bool
 	stats     Stats
@@ -81,7 +89,7 @@ type Explorer struct {
 	samples   []Sample
 	bounds    map[string]int64
 	observes  []string
-	pathSigs  map[string]bool
+	rtypePtrT types.Type
 	startTime time.Time
 }
 
@@ -113,8 +121,8 @@ type Engine struct {
 	inInit  bool
 
 	// per path
-	prefix      []bool
-	trace       []bool
+	prefix      []Dec
+	trace       []Dec
 	frames      int // solver frames currently pushed (== number of trace entries asserted)
 	frameLits   []bool
 	steps       int
@@ -125,7 +133,7 @@ type Engine struct {
 	mapOrderCtr int
 	clock       *Term // virtual time (ns)
 	sleeps      []*Term
-	local       [][]bool
+	local       [][]Dec
 	markersHit  map[string]bool
 	funcsHit    map[string]bool
 	stubsHit    map[string]int
@@ -141,6 +149,8 @@ type Engine struct {
 	trivial     int
 	decisions   int
 	unknownHit  bool
+	randCtr     int
+	randLog     []randCall
 }
 
 func (e *Engine) noteStub(name string) { e.stubsHit[name]++ }
@@ -197,7 +207,58 @@ func (e *Engine) popTo(n int) {
 }
 
 // decide returns the truth value of c on this path, forking when both are feasible.
-func (e *Engine) decide(c *Term) bool {
+func (e *Engine) decide(c *Term) bool { return e.decideK(c, 0) }
+
+// concretize returns a concrete value for t, forking over the values the path allows.
+func (e *Engine) concretize(t *Term) uint64 {
+	for n := 0; ; n++ {
+		if t.IsConst() {
+			return t.BV
+		}
+		if n > 256 {
+			e.unsupported("concretisation of a term with more than 256 feasible values")
+		}
+		i := len(e.trace)
+		var cand uint64
+		if i < len(e.prefix) {
+			cand = e.prefix[i].K
+		} else {
+			if e.solver.Check() != RSat {
+				e.unsupported("cannot obtain a model to concretise a term")
+			}
+			vals, err := e.solver.Values([]*Term{t})
+			if err != nil {
+				panic(engineError{"concretize: " + err.Error()})
+			}
+			cand = vals[0].BV
+		}
+		var c *Term
+		switch t.Sort.K {
+		case SBool:
+			c = e.tt.Eq(t, e.tt.Bool(cand == 1))
+		case SBV:
+			c = e.tt.Eq(t, e.tt.BVConst(cand, t.Sort.W))
+		default:
+			e.unsupported("concretisation of a floating-point term")
+		}
+		if e.decideK(c, cand) {
+			return cand
+		}
+	}
+}
+
+func (e *Engine) concretizeStr(s Str) string {
+	if s.IsConcrete() {
+		return s.s
+	}
+	bs := make([]byte, s.Len())
+	for i := range bs {
+		bs[i] = byte(e.concretize(s.b[i]))
+	}
+	return string(bs)
+}
+
+func (e *Engine) decideK(c *Term, k uint64) bool {
 	if c.IsConst() {
 		return c.BV == 1
 	}
@@ -207,8 +268,8 @@ func (e *Engine) decide(c *Term) bool {
 	i := len(e.trace)
 	e.decisions++
 	if i < len(e.prefix) {
-		v := e.prefix[i]
-		e.trace = append(e.trace, v)
+		v := e.prefix[i].V
+		e.trace = append(e.trace, Dec{v, k})
 		if i >= e.frames {
 			e.pushLit(c, v)
 		}
@@ -234,7 +295,7 @@ func (e *Engine) decide(c *Term) bool {
 	var v bool
 	switch {
 	case tOK && fOK:
-		alt := append(append([]bool{}, e.trace...), false)
+		alt := append(append([]Dec{}, e.trace...), Dec{false, k})
 		e.local = append(e.local, alt)
 		v = true
 	case tOK:
@@ -244,7 +305,7 @@ func (e *Engine) decide(c *Term) bool {
 	default:
 		panic(engineError{"both branches infeasible: path condition unsatisfiable"})
 	}
-	e.trace = append(e.trace, v)
+	e.trace = append(e.trace, Dec{v, k})
 	e.pushLit(c, v)
 	return v
 }
@@ -259,10 +320,10 @@ func (e *Engine) assume(c *Term) {
 	}
 	i := len(e.trace)
 	if i < len(e.prefix) {
-		if !e.prefix[i] {
+		if !e.prefix[i].V {
 			panic(engineError{"prefix contradicts an assumption"})
 		}
-		e.trace = append(e.trace, true)
+		e.trace = append(e.trace, Dec{V: true})
 		if i >= e.frames {
 			e.pushLit(c, true)
 		}
@@ -276,7 +337,7 @@ func (e *Engine) assume(c *Term) {
 		e.unknownHit = true
 		e.x.inconclusive("solver returned unknown on an assumption")
 	}
-	e.trace = append(e.trace, true)
+	e.trace = append(e.trace, Dec{V: true})
 	e.pushLit(c, true)
 }
 
@@ -356,8 +417,8 @@ func (e *Engine) assertObl(c *Term, label string) {
 	i := len(e.trace)
 	if i < len(e.prefix) {
 		// already examined on the path that first reached it; follow the recorded side
-		v := e.prefix[i]
-		e.trace = append(e.trace, v)
+		v := e.prefix[i].V
+		e.trace = append(e.trace, Dec{V: v})
 		if i >= e.frames {
 			e.pushLit(c, v)
 		}
@@ -376,14 +437,14 @@ func (e *Engine) assertObl(c *Term, label string) {
 		e.solver.Pop()
 		e.discharged++
 		// c is implied by the path condition: no frame needed, but keep trace aligned
-		e.trace = append(e.trace, true)
+		e.trace = append(e.trace, Dec{V: true})
 		e.pushLit(c, true)
 		return
 	case RUnknown:
 		e.solver.Pop()
 		e.unknownHit = true
 		e.x.inconclusive("solver returned unknown on obligation " + label)
-		e.trace = append(e.trace, true)
+		e.trace = append(e.trace, Dec{V: true})
 		e.pushLit(c, true)
 		return
 	}
@@ -394,7 +455,7 @@ func (e *Engine) assertObl(c *Term, label string) {
 	if e.solver.CheckWith(c) == RUnsat {
 		panic(pathEnd{kind: "violation", msg: label})
 	}
-	e.trace = append(e.trace, true)
+	e.trace = append(e.trace, Dec{V: true})
 	e.pushLit(c, true)
 }
 
@@ -482,10 +543,10 @@ func (e *Engine) reportViolation(kind, label, msg string) {
 	e.reportViolationWithModel(kind, label, msg)
 }
 
-func decString(d []bool) string {
+func decString(d []Dec) string {
 	var sb strings.Builder
 	for _, b := range d {
-		if b {
+		if b.V {
 			sb.WriteByte('1')
 		} else {
 			sb.WriteByte('0')
@@ -519,7 +580,7 @@ func (x *Explorer) inconclusive(msg string) {
 
 // ---- running paths ----
 
-func (e *Engine) runPath(prefix []bool) (end pathEnd) {
+func (e *Engine) runPath(prefix []Dec) (end pathEnd) {
 	e.prefix = prefix
 	e.trace = e.trace[:0]
 	e.steps = 0
@@ -534,10 +595,12 @@ func (e *Engine) runPath(prefix []bool) (end pathEnd) {
 	e.observed = nil
 	e.unknownHit = false
 	e.markersHit = map[string]bool{}
+	e.randCtr = 0
+	e.randLog = nil
 
 	// solver stack: keep the frames that agree with the new prefix
 	common := 0
-	for common < e.frames && common < len(prefix) && e.frameLits[common] == prefix[common] {
+	for common < e.frames && common < len(prefix) && e.frameLits[common] == prefix[common].V {
 		common++
 	}
 	e.popTo(common)
@@ -625,7 +688,7 @@ func (x *Explorer) worker(id int, wg *sync.WaitGroup, fatal chan<- string) {
 	}()
 	e.reset()
 	for {
-		var prefix []bool
+		var prefix []Dec
 		if n := len(e.local); n > 0 {
 			prefix = e.local[n-1]
 			e.local = e.local[:n-1]
@@ -679,7 +742,7 @@ var condMu sync.Mutex
 var cond = sync.NewCond(&condMu)
 
 // take blocks until a prefix is available or all workers are idle.
-func (x *Explorer) take() []bool {
+func (x *Explorer) take() []Dec {
 	x.mu.Lock()
 	x.idle++
 	for {
@@ -734,7 +797,6 @@ func (x *Explorer) record(e *Engine, end pathEnd) {
 		}
 	}
 	if end.kind == "done" {
-		x.pathSigs[decString(e.trace)] = true
 		if len(x.samples) < 6 && (x.stats.Paths%7 == 1 || len(x.samples) == 0) && e.cfg.Concrete == nil {
 			// concrete witness of this path
 			if e.solver.Check() == RSat {
@@ -789,8 +851,7 @@ func (x *Explorer) Run() (*Result, error) {
 	x.violSeen = map[string]bool{}
 	x.inconSeen = map[string]bool{}
 	x.bounds = map[string]int64{}
-	x.pathSigs = map[string]bool{}
-	x.queue = [][]bool{{}}
+	x.queue = [][]Dec{{}}
 	var wg sync.WaitGroup
 	fatal := make(chan string, x.cfg.Workers)
 	for i := 0; i < x.cfg.Workers; i++ {
